@@ -7,6 +7,7 @@ TECH = "TLA+ model checking (TLC) + trace validation of the real driver against 
 CHECKS = {
  "C10": ("model_checking", "TLC checks the implementation-shaped wheel model (CallOutWheel, C=4) exhaustively against never-early / on-time / time-left invariants; TLC-enumerated input histories (CallOutGen; delays and tick spacings around the real wheel size 32, operations at top level and from inside callbacks) are replayed through the real backend()/call_out() under ASan and every recorded trace is validated by TLC against the abstract specification CallOut.", NOTE, TECH, "DESIGN.md §7 C10"),
  "C11": ("model_checking", "TLC checks HeartBeatImpl (heart_beats[] array, cursor, removal compensation, error path) exhaustively against the strict once-per-interval rules; TLC-enumerated populations x heart_beat scripts x tick/top-level steps (HeartBeatGen) run through the real call_heart_beat() and every trace is validated against the abstract specification HeartBeat (strict where the property speaks, nondeterministic where it is silent).", NOTE, TECH, "DESIGN.md §7 C11"),
+ "C12": ("model_checking", "TLC checks CmdTurnImpl (slot table with gaps, HAS_CMD_TURN flags, the static descending cursor of get_user_command, the bounded serve loop) exhaustively for 'nobody with a turn and a command is skipped, nobody served twice'; TLC-enumerated populations/gaps/arrival patterns/error, tick, connect and single-character extras (CmdTurnGen) run through the real backend() with scripted telnet clients, and every trace is validated against the abstract specification CmdTurn (one per user per cycle, FIFO per user, a poll never sleeps on pending commands).", NOTE, TECH, "DESIGN.md §7 C12"),
 }
 NA = {}
 
